@@ -384,6 +384,132 @@ impl Gen for i32 {
     }
 }
 
+// ---- serde rename rules on enums: a container-wide rule for the fields of struct variants, overridden by a
+// variant's own rule; renamed variants
+#[derive(Debug, Serialize, Deserialize, AvroSchema, Clone, PartialEq)]
+#[serde(rename_all_fields = "SCREAMING_SNAKE_CASE")]
+pub enum RenameRules {
+    #[serde(rename_all = "camelCase")]
+    First { first_value: i32, other_one: String },
+    Second { second_value: i64, more_of_it: bool },
+    #[serde(rename = "Third_one")]
+    Third { plain_name: String },
+    Unit,
+}
+impl Gen for RenameRules {
+    fn gen_value(r: &mut Rng, _d: u32) -> Self {
+        match r.below(4) {
+            0 => RenameRules::First { first_value: r.i64() as i32, other_one: r.string() },
+            1 => RenameRules::Second { second_value: r.i64(), more_of_it: r.below(2) == 1 },
+            2 => RenameRules::Third { plain_name: r.string() },
+            _ => RenameRules::Unit,
+        }
+    }
+}
+
+#[derive(Debug, Serialize, Deserialize, AvroSchema, Clone, PartialEq)]
+#[serde(rename_all = "SCREAMING_SNAKE_CASE")]
+pub enum KebabUnits {
+    FirstOne,
+    SecondOne,
+    #[serde(rename = "explicit_name")]
+    ThirdOne,
+}
+impl Gen for KebabUnits {
+    fn gen_value(r: &mut Rng, _d: u32) -> Self {
+        [KebabUnits::FirstOne, KebabUnits::SecondOne, KebabUnits::ThirdOne][r.below(3) as usize].clone()
+    }
+}
+
+#[derive(Debug, Serialize, Deserialize, AvroSchema, Clone, PartialEq)]
+#[serde(rename_all = "SCREAMING_SNAKE_CASE")]
+pub struct WithRules {
+    the_rules: RenameRules,
+    a_unit: KebabUnits,
+    many_units: Vec<KebabUnits>,
+}
+impl Gen for WithRules {
+    fn gen_value(r: &mut Rng, d: u32) -> Self {
+        WithRules { the_rules: RenameRules::gen_value(r, d), a_unit: KebabUnits::gen_value(r, d), many_units: (0..r.len()).map(|_| KebabUnits::gen_value(r, d)).collect() }
+    }
+}
+
+// ---- struct field order differs from the schema's field order: the record serializer has to hold
+// fields back (ser_schema/record).  The schema is given by hand, not derived.
+macro_rules! hand_schema {
+    ($t:ty, $json:expr) => {
+        impl AvroSchema for $t {
+            fn get_schema() -> Schema {
+                Schema::parse_str($json).expect("hand-written schema of the corpus")
+            }
+        }
+    };
+}
+
+/// fully reversed
+#[derive(Debug, Serialize, Deserialize, Clone, PartialEq)]
+pub struct Reversed {
+    tags: Vec<String>,
+    label: String,
+    x: i64,
+}
+hand_schema!(Reversed, r#"{"type":"record","name":"Reversed","fields":[{"name":"x","type":"long"},{"name":"label","type":"string"},{"name":"tags","type":{"type":"array","items":"string"}}]}"#);
+impl Gen for Reversed {
+    fn gen_value(r: &mut Rng, _d: u32) -> Self {
+        Reversed { tags: (0..r.len()).map(|_| r.string()).collect(), label: r.string(), x: r.i64() }
+    }
+}
+
+/// reversed, and every schema field has a default (a held-back field must not be replaced by it)
+#[derive(Debug, Serialize, Deserialize, Clone, PartialEq)]
+pub struct ReversedDefaults {
+    tags: Vec<String>,
+    label: String,
+    x: i64,
+}
+hand_schema!(ReversedDefaults, r#"{"type":"record","name":"ReversedDefaults","fields":[{"name":"x","type":"long","default":-7},{"name":"label","type":"string","default":"dflt"},{"name":"tags","type":{"type":"array","items":"string"},"default":["d"]}]}"#);
+impl Gen for ReversedDefaults {
+    fn gen_value(r: &mut Rng, _d: u32) -> Self {
+        ReversedDefaults { tags: (0..r.len()).map(|_| r.string()).collect(), label: r.string(), x: r.i64() }
+    }
+}
+
+/// interleaved: schema order a b c d e
+#[derive(Debug, Serialize, Deserialize, Clone, PartialEq)]
+pub struct Interleaved {
+    b: i32,
+    d: String,
+    c: Option<i64>,
+    a: bool,
+    e: Vec<i32>,
+}
+hand_schema!(Interleaved, r#"{"type":"record","name":"Interleaved","fields":[{"name":"a","type":"boolean"},{"name":"b","type":"int"},{"name":"c","type":["null","long"]},{"name":"d","type":"string"},{"name":"e","type":{"type":"array","items":"int"}}]}"#);
+impl Gen for Interleaved {
+    fn gen_value(r: &mut Rng, _d: u32) -> Self {
+        Interleaved {
+            b: r.i64() as i32,
+            d: r.string(),
+            c: if r.below(2) == 0 { None } else { Some(r.i64()) },
+            a: r.below(2) == 1,
+            e: (0..r.len()).map(|_| r.i64() as i32).collect(),
+        }
+    }
+}
+
+/// rotated by one, with a nested out-of-order record inside a list
+#[derive(Debug, Serialize, Deserialize, Clone, PartialEq)]
+pub struct Rotated {
+    label: String,
+    inner: Vec<Reversed>,
+    x: i64,
+}
+hand_schema!(Rotated, r#"{"type":"record","name":"Rotated","fields":[{"name":"x","type":"long"},{"name":"label","type":"string"},{"name":"inner","type":{"type":"array","items":{"type":"record","name":"Reversed","fields":[{"name":"x","type":"long"},{"name":"label","type":"string"},{"name":"tags","type":{"type":"array","items":"string"}}]}}}]}"#);
+impl Gen for Rotated {
+    fn gen_value(r: &mut Rng, d: u32) -> Self {
+        Rotated { label: r.string(), inner: (0..r.len().min(3)).map(|_| Reversed::gen_value(r, d + 1)).collect(), x: r.i64() }
+    }
+}
+
 fn same_f<T: PartialEq + std::fmt::Debug>(a: &T, b: &T) -> bool {
     // NaN-free generators: PartialEq is enough
     a == b
@@ -534,6 +660,13 @@ pub fn serde_case(a: &[Sexp]) -> Sexp {
         "pair" => run_type::<(Inner, Suit)>(seed, bs),
         "array3" => run_type::<[Single; 3]>(seed, bs),
         "one-tuple-int" => run_type::<(i32,)>(seed, bs),
+        "rename-rules" => run_type::<RenameRules>(seed, bs),
+        "kebab-units" => run_type::<KebabUnits>(seed, bs),
+        "with-rules" => run_type::<WithRules>(seed, bs),
+        "reversed" => run_type::<Reversed>(seed, bs),
+        "reversed-defaults" => run_type::<ReversedDefaults>(seed, bs),
+        "interleaved" => run_type::<Interleaved>(seed, bs),
+        "rotated" => run_type::<Rotated>(seed, bs),
         _ => Sexp::tag("bad-case", vec![]),
     }
 }
